@@ -1624,7 +1624,8 @@ def strmatch(arr, regex):
     import re
 
     r = re.compile(regex)
-    vmatch = np.vectorize(lambda x: bool(r.match(x)))
+    # otypes: np.vectorize cannot infer the output type from an empty input
+    vmatch = np.vectorize(lambda x: bool(r.match(x)), otypes=[bool])
     return vmatch(arr)
 
 
